@@ -530,6 +530,11 @@ class MirDump:
     def function_names(self):
         return list(self.fn_index)
 
+    def text_of(self, name, which=0):
+        """Raw text of a function body."""
+        i, j = self.fn_index[name][which]
+        return '\n'.join(self.lines[i:j + 1])
+
     def get(self, name, which=0):
         key = (name, which)
         if key not in self._cache:
